@@ -431,7 +431,7 @@ def run(ctx):
     # "Protocol major versions differ." on the first connection: the audit is repeated once as SSH-1 and ends, whatever the second connection brings
     from props.C19 import run_versions_differ
     for extra in ([], ['-2'], ['-1'], ['-j']):
-        for second in ('same', 'pkm', 'silent', 'refuse'):
+        for second in ('same', 'pkm', 'silent', 'refuse', 'alternate'):
             code, out, log = run_versions_differ(extra, second)
             cov.add(('versions-differ', tuple(extra), second), True, tags=['versions-differ'])
             inp = {'versions_differ': True, 'args': extra, 'second_connection': second}
